@@ -616,6 +616,55 @@ def non_utf8_scenario(ctx, viol):
             pr.destroy()
 
 
+def oob_subdir_scenario(ctx, viol):
+    """A target in a subdirectory of its rule's directory (default.g.do builds sub/x.g) whose dependency chain contains a
+    checksummed target that must be re-checked out of band: the records redo-unlocked's helpers write into sub/x.g's log
+    name their targets relative to sub/ — the viewer must find them, live and in a later replay."""
+    pr = Project()
+    try:
+        os.makedirs(pr.path("sub"))
+        pr.write("default.g.do", 'echo "g-1 ($1)" >&2\nredo-ifchange t\necho g-2 >&2\n')
+        pr.write("t.do", "redo-ifchange s\necho t-line >&2\ncat s\n")
+        pr.write("s.do", "redo-always\necho s-line >&2\necho fixed | tee $3 | redo-stamp\n")
+        argv = ["redo", "--no-pretty", "--no-color", "--no-status", "sub/x.g"]
+        rc0, out0, err0 = pr.run(argv, timeout=60)
+        rc1, out1, err1 = pr.run(argv, timeout=60)
+        rc2, out2, err2 = pr.run(["redo-log", "--no-pretty", "--no-color", "--no-status", "-r", "sub/x.g"], timeout=60)
+        problems = []
+        for where, rc, text, errtext in (("live output of the second build", rc1, err1, err1), ("redo-log replay", rc2, out2, err2)):
+            if rc != 0:
+                problems.append("%s: exit %d (%s)" % (where, rc, (errtext.strip().splitlines() or [""])[-1][:160]))
+            got = attribute(parse_out(text))
+            for t, want in (("sub/x.g", ["g-1 (sub/x.g)", "g-2"]), ("s", ["s-line"])):
+                if got.get(t) != want and not problems:
+                    problems.append("%s: lines of %s are %r, expected %r" % (where, t, got.get(t), want))
+        if problems:
+            p = write_replay("C18", "oob-subdir", dict(kind="impl-monitor", problems=problems, live=err1[-1500:], replay=(out2 + err2)[-1500:],
+                                                       scenario="default.g.do: echo g-1 >&2; redo-ifchange t; echo g-2 >&2.  t.do: redo-ifchange s; cat s.  s.do: redo-always; echo fixed | tee $3 | redo-stamp.  mkdir sub; redo sub/x.g twice; redo-log -r sub/x.g"))
+            viol.append(Violation("C18", p, "records written during an out-of-band rebuild for a target in a subdirectory of its rule: " + "; ".join(problems[:2])))
+    finally:
+        pr.destroy()
+
+
+def split_utf8_scenario(ctx, viol):
+    """A stderr line whose multi-byte character arrives in two writes with a pause (a program flushing a 4096-byte stdio
+    buffer in the middle of a character): the follower meets end-of-file between the halves; the line is still shown as
+    written, live and in the replay."""
+    pr = Project()
+    try:
+        pr.write("u.do", "printf 'caf\\303' >&2; sleep 0.7; printf '\\251 ok\\n' >&2\necho u-last >&2\necho u\n")
+        for j in (1, 2):
+            rc, out, err = pr.run(["redo", "-j%d" % j, "--no-pretty", "--no-color", "--no-status", "u"], timeout=60)
+            live = attribute(parse_out(err)).get("u", [])
+            want = ["caf\u00e9 ok", "u-last"]
+            if rc != 0 or live != want:
+                p = write_replay("C18", "split-utf8", dict(kind="impl-monitor", clause="every stderr line appears exactly once, as written", j=j, rc=rc, want=want, got=live, script=pr.read("u.do").decode("latin-1")))
+                viol.append(Violation("C18", p, "a stderr line whose multi-byte character arrived in two writes is shown live as %r (expected %r) at -j%d" % (live, want, j)))
+                return
+    finally:
+        pr.destroy()
+
+
 CW_CAP = 20000          # upper bound of lines per background writer (keeps a round bounded on a stalled machine)
 RECORD_RE = re.compile(r"^@@REDO:[a-z]+:-?\d+:\d+\.\d+@@ [^@\n]*$")
 
@@ -873,6 +922,10 @@ def run(ctx):
         two_spellings_scenario(ctx, viol)
     if not viol:
         non_utf8_scenario(ctx, viol)
+    if not viol:
+        split_utf8_scenario(ctx, viol)
+    if not viol:
+        oob_subdir_scenario(ctx, viol)
     s5 = {}
     if not viol:
         # own generator: the scenarios above keep their input streams
